@@ -273,6 +273,15 @@ def run_sig(case, rng, mon):
             intf = e
         if not ok:
             mism.append(("create_roundtrip", f"{cls}{p}: create().signature != original ({intf!r})"))
+        mon.counters["create_roundtrip"] += 1
+        try:
+            i2 = s.create(path=("y",))
+            sigs1 = {id(v) for _p, _m, v in s.flatten(intf)} if not isinstance(intf, Exception) else set()
+            sigs2 = {id(v) for _p, _m, v in s.flatten(i2)}
+            if i2 is intf or (sigs1 & sigs2):
+                mism.append(("create_roundtrip", f"{cls}{p}: two create() calls share objects / signals"))
+        except Exception as e:
+            mism.append(("create_roundtrip", f"{cls}{p}: second create() failed: {e!r}"))
         # members
         mon.counters["members_follow_params"] += 1
         got = {name: Shape.cast(m.shape).width for name, m in s.members.items() if m.is_port}
